@@ -1247,8 +1247,12 @@ void mcount_entry_filter_record(struct mcount_thread_data *mtdp, struct mcount_r
 			}
 		}
 
-		/* script hooking for function entry */
-		if (SCRIPT_ENABLED && script_str)
+		/*
+		 * script hooking for function entry.  A function entered while
+		 * tracing is off gets no callback (neither here nor at exit) so
+		 * that the script always sees properly paired entry/exit calls.
+		 */
+		if (SCRIPT_ENABLED && script_str && !(rstack->flags & MCOUNT_FL_DISABLED))
 			script_hook_entry(mtdp, rstack, tr);
 
 #define FLAGS_TO_CHECK (TRIGGER_FL_RECOVER | TRIGGER_FL_TRACE_ON | TRIGGER_FL_TRACE_OFF)
@@ -1310,8 +1314,12 @@ void mcount_exit_filter_record(struct mcount_thread_data *mtdp, struct mcount_re
 		if (mtdp->record_idx > 0)
 			mtdp->record_idx--;
 
-		if (!mcount_enabled)
+		if (!mcount_enabled) {
+			/* its entry was passed to the script: keep the pair complete */
+			if (SCRIPT_ENABLED && script_str && !(rstack->flags & MCOUNT_FL_DISABLED))
+				script_hook_exit(mtdp, rstack);
 			return;
+		}
 
 		if (rstack->flags & MCOUNT_FL_RETVAL) {
 			struct uftrace_trigger tr;
@@ -1364,8 +1372,8 @@ void mcount_exit_filter_record(struct mcount_thread_data *mtdp, struct mcount_re
 				mtdp->nr_events = k; /* invalidate sync events */
 		}
 
-		/* script hooking for function exit */
-		if (SCRIPT_ENABLED && script_str)
+		/* script hooking for function exit (only if its entry was passed too) */
+		if (SCRIPT_ENABLED && script_str && !(rstack->flags & MCOUNT_FL_DISABLED))
 			script_hook_exit(mtdp, rstack);
 	}
 }
